@@ -142,6 +142,8 @@ pub struct Model {
     pub by_pid: std::collections::HashMap<u16, Vec<usize>>,
     /// number of live op tasks that still own a handle clone
     pub live_handles: usize,
+    /// order in which QoS>0 PUBLISH (false) and PUBREL (true) packets were first written
+    pub sent_log: Vec<(usize, bool)>,
 }
 
 fn pat_matches(p: &ResPat, got: &str) -> bool {
@@ -185,6 +187,7 @@ impl Model {
             wake: BTreeSet::new(),
             by_pid: std::collections::HashMap::new(),
             live_handles: 0,
+            sent_log: vec![],
         }
     }
 
@@ -456,7 +459,52 @@ impl Model {
                 _ => {}
             }
         }
-        self.quota_used = 0;
+    }
+
+    /// The transport was replaced (reconnect): nothing of the old connection is pending any more.
+    pub fn new_wire(&mut self) {
+        self.inbox.clear();
+        self.eof = false;
+        self.read_err = false;
+        self.write_err = false;
+    }
+
+    /// run() is called again on a Context that recorded a disconnection (C17).
+    pub fn resume(&mut self, expired: bool) {
+        self.ctx = CtxSt::Running;
+        if expired {
+            for i in 0..self.ops.len() {
+                if matches!(
+                    self.ops[i].st,
+                    St::Queued | St::AwaitAck | St::AwaitRec | St::RelQueued | St::AwaitComp
+                ) {
+                    self.ops[i].inflight = false;
+                    self.complete(i, ResPat::AnyErr);
+                }
+            }
+            self.queue.clear();
+            self.quota_used = 0;
+            self.unreleased.clear();
+            self.pings.clear();
+            for s in self.subs.iter_mut() {
+                s.sender_alive = false;
+            }
+            self.hit("resume-expired");
+            return;
+        }
+        let log = self.sent_log.clone();
+        for (op, pubrel) in log {
+            let st = self.ops[op].st.clone();
+            if !pubrel && matches!(st, St::AwaitAck | St::AwaitRec) {
+                self.expected.push(Expect::Wire(WirePat::Resend { op }));
+                self.hit("resume-resend-publish");
+            }
+            if pubrel && st == St::AwaitComp {
+                let pid = self.ops[op].pid.unwrap();
+                self.expected.push(Expect::Wire(WirePat::Pubrel { pid }));
+                self.hit("resume-resend-pubrel");
+            }
+        }
     }
 
     /// Encoded length of the packet a request produces, computed with the reference encoder.
@@ -514,6 +562,7 @@ impl Model {
             let pid = self.ops[op].pid.expect("harness: pubrel without pid");
             self.expected.push(Expect::Wire(WirePat::Pubrel { pid }));
             self.ops[op].st = St::AwaitComp;
+            self.sent_log.push((op, true));
             self.hit("pubrel-sent");
             return;
         }
@@ -538,6 +587,7 @@ impl Model {
                     }
                     self.quota_used += 1;
                     self.ops[op].inflight = true;
+                    self.sent_log.push((op, false));
                     self.expected.push(Expect::Wire(WirePat::Request { op }));
                     self.ops[op].st = if p.qos() == 1 {
                         St::AwaitAck
